@@ -1899,6 +1899,7 @@ package gomatrixserverlib
 //@   property C15
 //@   nosafety
 //@   ensures room-matches-the-request: result[1] == nil ==> input.InviteEvent.RoomID().raw == input.RoomID.raw
+//@   ensures is-an-invite: result[1] == nil ==> (input.InviteEvent.Type() == "m.room.member" && input.InviteEvent.Membership()[1] == nil && input.InviteEvent.Membership()[0] == "invite")
 //@   ensures signature-checked: result[1] == nil ==> (called(VerifyJSONs) && ret(VerifyJSONs, 1) == nil && ret(VerifyJSONs, 0)[0].Error == nil)
 //@   ensures common-checks-on-the-counter-signed-event: result[1] == nil ==> (called(handleInviteCommonChecks) && ret(handleInviteCommonChecks, 1) == nil && result[0] == ret(handleInviteCommonChecks, 0))
 //@   calls VerifyJSONs@root the-senders-server-signed-the-redacted-event: len(requests) == 1 && requests[0].Message == ret(RedactEventJSON, 0) && requests[0].AtTS == root_input.InviteEvent.OriginServerTS() && requests[0].ValidityCheckingFunc == StrictValiditySignatureCheck && root_input.UserIDQuerier(root_input.RoomID, root_input.InviteEvent.SenderID())[1] == nil && string(requests[0].ServerName) == root_input.UserIDQuerier(root_input.RoomID, root_input.InviteEvent.SenderID())[0].domain
